@@ -587,21 +587,40 @@ def decorate_part(rng, ids, part, segments):
 # building the score through the public API
 
 
-def build(spec):
+def kind_fns(kinds):
+    """how the numbers of a spec are handed to the score API (spec["kinds"]): Python ints (default), numpy integers of one
+    width ("np64", "np32": what the importers that compute times with numpy hand over), or Python ints with the tempo as a
+    float ("fbpm": Tempo(96.0)); the written file must not depend on it."""
+    if kinds in ("np64", "np32"):
+        import numpy as np
+        ty = np.int64 if kinds == "np64" else np.int32
+        return (lambda x: None if x is None else ty(x)), (lambda x: np.float64(x))
+    if kinds == "fbpm":
+        return (lambda x: x), (lambda x: float(x))
+    if kinds == "ftime":
+        return None, (lambda x: x)
+    return (lambda x: x), (lambda x: x)
+
+
+def build_part(ps, kinds=None):
     import partitura.score as S
     from partitura.directions import parse_direction
 
-    built = []
-    for ps in spec["parts"]:
-        p = S.Part(ps["id"], part_name=ps.get("name"), part_abbreviation=ps.get("abbr"), quarter_duration=ps["q0"])
+    I, B = kind_fns(kinds)
+    T = I
+    if I is None:
+        # times as Python floats with integral values (what an importer computing onsets in beats * divisions hands over)
+        I, T = (lambda x: x), (lambda x: None if x is None else float(x))
+    if True:
+        p = S.Part(ps["id"], part_name=ps.get("name"), part_abbreviation=ps.get("abbr"), quarter_duration=I(ps["q0"]))
         for t, q in ps["qchanges"]:
-            p.set_quarter_duration(t, q)
+            p.set_quarter_duration(T(t), I(q))
         # the importer always creates page 1 / system 1 at time 0 (as the repo's own round-trip tests do)
         if not ps.get("nopage"):
             p.add(S.Page(1), 0)
             p.add(S.System(1), 0)
         for (s, e, num, name) in ps["measures"]:
-            p.add(S.Measure(number=num, name=name), s, e)
+            p.add(S.Measure(number=I(num), name=name), T(s), T(e))
         byid = {}
         present = {o["id"]: o for o in ps["objs"] if "id" in o}
 
@@ -612,29 +631,14 @@ def build(spec):
             k = o["k"]
             if k == "grace" and not chain_ok(o):
                 continue
-            common = {}
-            if k in ("note", "unp", "rest", "grace"):
-                common = dict(id=o["id"], voice=o["voice"], staff=o["staff"],
-                              symbolic_duration=dict(o["sym"]) if o.get("sym") else None,
-                              articulations=list(o["art"]) if o.get("art") else None,
-                              stem_direction=o.get("stem"),
-                              technical=[S.Fingering(fingering=o["fing"])] if o.get("fing") else None)
-            if k == "note":
-                n = S.Note(step=o["step"], octave=o["oct"], alter=o["alter"], **common)
-            elif k == "grace":
-                n = S.GraceNote(grace_type=o["gtype"], step=o["step"], octave=o["oct"], alter=o["alter"], **common)
-            elif k == "unp":
-                n = S.UnpitchedNote(step=o["step"], octave=o["oct"], notehead=o.get("notehead"),
-                                    noteheadstyle=o.get("filled", True), **common)
-            elif k == "rest":
-                n = S.Rest(**common)
-            else:
+            n = make_note(o, S, I)
+            if n is None:
                 continue
-            p.add(n, o["t"], o["e"])
+            p.add(n, T(o["t"]), T(o["e"]))
             byid[o["id"]] = n
             if o.get("ferm"):
                 f = S.Fermata(n)
-                p.add(f, o["t"])
+                p.add(f, T(o["t"]))
                 n.fermata = f
         for o in ps["objs"]:
             k = o["k"]
@@ -656,61 +660,90 @@ def build(spec):
             elif k == "tuplet":
                 if o["a"] in byid and o["b"] in byid:
                     a, b = byid[o["a"]], byid[o["b"]]
-                    tu = S.Tuplet(start_note=a, end_note=b, actual_notes=o["an"], normal_notes=o["nn"],
+                    tu = S.Tuplet(start_note=a, end_note=b, actual_notes=I(o["an"]), normal_notes=I(o["nn"]),
                                   actual_type=o["at"], normal_type=o["nt"])
                     p.add(tu, a.start.t, b.end.t)
             elif k == "ts":
-                p.add(S.TimeSignature(o["beats"], o["bt"]), o["t"])
+                p.add(S.TimeSignature(I(o["beats"]), I(o["bt"])), T(o["t"]))
             elif k == "ks":
-                p.add(S.KeySignature(o["f"], o["mode"]), o["t"])
+                p.add(S.KeySignature(I(o["f"]), o["mode"]), T(o["t"]))
             elif k == "clef":
-                p.add(S.Clef(staff=o["staff"], sign=o["sign"], line=o["line"], octave_change=o["oc"]), o["t"])
+                p.add(S.Clef(staff=I(o["staff"]), sign=o["sign"], line=I(o["line"]), octave_change=I(o["oc"])), T(o["t"]))
             elif k == "dir":
                 kind = o["kind"]
                 if kind == "dyn":
                     from partitura.io.importmusicxml import DYN_DIRECTIONS
                     d = DYN_DIRECTIONS[o["text"]](o["text"])
-                    p.add(d, o["t"])
+                    p.add(d, T(o["t"]))
                 elif kind == "pedal":
-                    p.add(S.SustainPedalDirection(line=bool(o.get("line"))), o["t"], o["e"])
+                    p.add(S.SustainPedalDirection(line=bool(o.get("line"))), T(o["t"]), T(o["e"]))
                 elif kind in ("wedge_c", "wedge_d"):
                     cls = S.IncreasingLoudnessDirection if kind == "wedge_c" else S.DecreasingLoudnessDirection
                     d = cls("crescendo" if kind == "wedge_c" else "diminuendo", wedge=True)
-                    p.add(d, o["t"], o["e"])
+                    p.add(d, T(o["t"]), T(o["e"]))
                 else:
                     ds = parse_direction(o["text"])
                     for d in ds:
                         if isinstance(d, S.DynamicDirection) and o.get("e") is not None and len(ds) == 1:
-                            p.add(d, o["t"], o["e"])
+                            p.add(d, T(o["t"]), T(o["e"]))
                         else:
-                            p.add(d, o["t"])
+                            p.add(d, T(o["t"]))
             elif k == "tempo":
-                p.add(S.Tempo(o["bpm"], o.get("unit", "q")), o["t"])
+                p.add(S.Tempo(B(o["bpm"]), o.get("unit", "q")), T(o["t"]))
             elif k == "repeat":
-                p.add(S.Repeat(), o["t"], o["e"])
+                p.add(S.Repeat(), T(o["t"]), T(o["e"]))
             elif k == "ending":
-                p.add(S.Ending(o["n"]), o["t"], o["e"])
+                p.add(S.Ending(o["n"]), T(o["t"]), T(o["e"]))
             elif k == "bferm":
-                p.add(S.Fermata(o["ref"]), o["t"])
+                p.add(S.Fermata(o["ref"]), T(o["t"]))
             elif k == "harm":
                 if o["kind"] == "roman":
-                    p.add(S.RomanNumeral(o["text"]), o["t"])
+                    p.add(S.RomanNumeral(o["text"]), T(o["t"]))
                 elif o["kind"] == "chord":
-                    p.add(S.ChordSymbol(root=o["root"], kind=o.get("ckind"), bass=o.get("bass")), o["t"])
+                    p.add(S.ChordSymbol(root=o["root"], kind=o.get("ckind"), bass=o.get("bass")), T(o["t"]))
                 else:
-                    p.add(S.Cadence(o["text"]), o["t"])
+                    p.add(S.Cadence(o["text"]), T(o["t"]))
             elif k == "staffdet":
-                p.add(S.Staff(number=o["number"], lines=o["lines"]), o["t"])
+                p.add(S.Staff(number=I(o["number"]), lines=I(o["lines"])), T(o["t"]))
         # new systems / pages at later measure starts, numbered as the importer numbers them
         pg, sy = 1, 1
         for o in sorted((o for o in ps["objs"] if o["k"] == "print"), key=lambda o: o["t"]):
             if o.get("page"):
                 pg += 1
-                p.add(S.Page(pg), o["t"])
+                p.add(S.Page(pg), T(o["t"]))
             sy += 1
-            p.add(S.System(sy), o["t"])
+            p.add(S.System(sy), T(o["t"]))
         S.set_end_times(p)
-        built.append(p)
+    return p
+
+
+def make_note(o, S, I=lambda x: x):
+    """the score object of one note / rest spec (None for the other kinds of spec objects)"""
+    k = o["k"]
+    if k not in ("note", "unp", "rest", "grace"):
+        return None
+    sym = None
+    if o.get("sym"):
+        sym = {kk: (I(v) if isinstance(v, int) else v) for kk, v in o["sym"].items()}
+    common = dict(id=o["id"], voice=I(o["voice"]), staff=I(o["staff"]),
+                  symbolic_duration=sym,
+                  articulations=list(o["art"]) if o.get("art") else None,
+                  stem_direction=o.get("stem"),
+                  technical=[S.Fingering(fingering=I(o["fing"]))] if o.get("fing") else None)
+    if k == "note":
+        return S.Note(step=o["step"], octave=I(o["oct"]), alter=I(o["alter"]), **common)
+    if k == "grace":
+        return S.GraceNote(grace_type=o["gtype"], step=o["step"], octave=I(o["oct"]), alter=I(o["alter"]), **common)
+    if k == "unp":
+        return S.UnpitchedNote(step=o["step"], octave=I(o["oct"]), notehead=o.get("notehead"),
+                               noteheadstyle=o.get("filled", True), **common)
+    return S.Rest(**common)
+
+
+def build(spec):
+    import partitura.score as S
+
+    built = [build_part(ps, spec.get("kinds")) for ps in spec["parts"]]
 
     def mk(node):
         if isinstance(node, int):
@@ -721,7 +754,10 @@ def build(spec):
             c.parent = g
         return g
 
-    return S.Score(partlist=[mk(n) for n in spec["struct"]])
+    partlist = [mk(n) for n in spec["struct"]]
+    scr = S.Score(partlist=partlist)
+    partlist.clear()          # the caller's list stays the caller's: the score does not change with it
+    return scr
 
 
 # ---------------------------------------------------------------------------------------------
@@ -984,7 +1020,7 @@ def fingerprint(scr, with_voice=True):
         for d in p.iter_all(S.Direction, include_subclasses=True):
             dirs.append((d.start.t, d.end.t if d.end is not None else None, type(d).__name__, d.text,
                          d.raw_text or d.text, bool(getattr(d, "wedge", False))))
-        fp[P + "directions"] = sorted(dirs, key=repr)
+        fp[P + "directions"] = sorted(_py(dirs), key=repr)
         fp[P + "words"] = sorted((w.start.t, w.text) for w in p.iter_all(S.Words))
         fp[P + "tempo"] = sorted((o.start.t, int(o.bpm), o.unit or "q") for o in p.iter_all(S.Tempo))
         fp[P + "repeats"] = sorted((o.start.t if o.start else None, o.end.t if o.end else None) for o in p.iter_all(S.Repeat))
@@ -998,7 +1034,18 @@ def fingerprint(scr, with_voice=True):
         fp["~" + P + "systems"] = sorted(o.start.t for o in p.iter_all(S.System))
         fp["~" + P + "pages"] = sorted(o.start.t for o in p.iter_all(S.Page))
         fp["~" + P + "staff_details"] = sorted((o.start.t, o.number, o.lines) for o in p.iter_all(S.Staff))
-    return fp
+    return {k: _py(v) for k, v in fp.items()}
+
+
+def _py(v):
+    """numbers as Python numbers (a score built from numpy integers is the same score)"""
+    if isinstance(v, (list, tuple)):
+        return type(v)(_py(x) for x in v)
+    if isinstance(v, bool) or v is None or isinstance(v, str):
+        return v
+    if hasattr(v, "dtype") and hasattr(v, "item"):
+        return v.item()
+    return v
 
 
 def fp_diff(a, b, limit=6, unlisted=False):
@@ -1317,7 +1364,16 @@ def group_case(spec, data, scr2):
 # one score through the implementation
 
 
+def bytes_diff(a, b, n=12):
+    import difflib
+    d = list(difflib.unified_diff(a.decode().splitlines(), b.decode().splitlines(), lineterm="", n=1))
+    return " | ".join(x.strip() for x in d[2:2 + n])
+
+
 class Outcome:
+    data = None
+    loaded = None
+
     def __init__(self):
         self.problems = []     # (kind, text)
         self.measure_cases = []
@@ -1331,8 +1387,10 @@ class Outcome:
         self.wedge_cases = []
 
 
-def check_spec(spec, want_coq=True):
-    """Run save/load/save on the score of `spec`; direct oracles; collect Coq cases."""
+def check_spec(spec, want_coq=True, scr=None):
+    """Run save/load/save on the score of `spec`; direct oracles; collect Coq cases.
+    scr: a LIVE score object that is claimed to be in the state `spec` describes (history stream): it is judged
+    instead of a freshly built one, against the expectations computed from `spec` alone."""
     import partitura.score as S
     from partitura import save_musicxml, load_musicxml
 
@@ -1340,7 +1398,8 @@ def check_spec(spec, want_coq=True):
     with warnings.catch_warnings():
         warnings.simplefilter("ignore")
         try:
-            scr = build(spec)
+            if scr is None:
+                scr = build(spec)
         except Exception as ex:   # the generator produced something the API refuses: not a property failure
             out.problems.append(("build", "%s: %s" % (type(ex).__name__, ex)))
             return out
@@ -1427,10 +1486,10 @@ def check_spec(spec, want_coq=True):
             out.problems.append(("O3", "second save raised %s: %s" % (type(ex).__name__, ex)))
             return out
         if data2 != data:
-            import difflib
-            d = list(difflib.unified_diff(data.decode().splitlines(), data2.decode().splitlines(), lineterm="", n=1))
-            out.problems.append(("O3", "save(load(save(s))) differs from save(s): " + " | ".join(x.strip() for x in d[2:14])))
+            out.problems.append(("O3", "save(load(save(s))) differs from save(s): " + bytes_diff(data, data2)))
         out.seq = seq
+        out.data = data
+        out.loaded = scr2
     return out
 
 
@@ -1489,6 +1548,694 @@ def shrink(spec, kind, text=""):
         if fails(with_objs(objs)):
             spec = with_objs(objs)
     return spec
+
+
+# ---------------------------------------------------------------------------------------------
+# HISTORY stream: state carried between calls (design.d/C03.md "State between calls")
+#
+# A history is {"specs": {"A": spec, "B": spec}, "ops": [op, ...]}.  Each track holds a LIVE Score object and the JSON spec that
+# describes its CURRENT state; an edit op is applied to the live object (public API / in place) and mirrored on the spec; an
+# observation op calls the entry points on the live object and is judged against the current spec ONLY: the one-shot oracles
+# O1-O3 computed from the spec, the fingerprint of a freshly built score of the current spec (H-state: the live object IS in
+# that state, no entry point edited its argument), the bytes save_musicxml returns for that fresh score (H-bytes), the other
+# accepted argument kinds (H-kinds) and the independence of objects returned earlier (H-alias).  Two tracks interleave in one
+# process (module-level state, both orders).
+
+NOTE_FIELDS = {"staff": "staff", "oct": "octave", "stem": "stem_direction", "voice": "voice"}
+OBJ_FIELDS = {"tempo": {"bpm": "bpm"}, "ks": {"f": "fifths"}, "ts": {"beats": "beats"}, "clef": {"sign": "sign"}, "ending": {"n": "number"}}
+OBJ_CLASS = {"tempo": "Tempo", "ks": "KeySignature", "ts": "TimeSignature", "clef": "Clef", "ending": "Ending"}
+
+
+def free_notes(ps):
+    """plain notes no other spec object refers to (their times / existence can be edited without moving anything else)"""
+    ref = set()
+    for o in ps["objs"]:
+        if o["k"] in ("tie", "slur", "tuplet"):
+            ref.update((o["a"], o["b"]))
+        if o["k"] == "grace" and o.get("next"):
+            ref.add(o["next"])
+    return [o for o in ps["objs"] if o["k"] == "note" and o["id"] not in ref and not o.get("ferm")]
+
+
+def segment_of(ps, t):
+    bounds = sorted({0, ps["end"]} | {m[0] for m in ps["measures"]} | {x for x, q in ps["qchanges"]})
+    for a, b in zip(bounds, bounds[1:]):
+        if a <= t < b:
+            return a, b
+    return None
+
+
+def spec_obj(ps, op):
+    for o in ps["objs"]:
+        if o["k"] == op["k"] and o["t"] == op["t"] and (op["k"] != "clef" or o.get("staff") == op.get("staff")):
+            return o
+    return None
+
+
+def edit_spec(spec, op):
+    """mirror of edit_live on the JSON spec; False when the target does not exist (the op is then skipped on both sides)"""
+    kind = op["op"]
+    if kind == "replace_part":
+        if op["i"] >= len(spec["parts"]):
+            return False
+        if op.get("plain") and any(isinstance(x, dict) for x in spec["struct"]):
+            return False
+        new = json.loads(json.dumps(op["part"]))
+        new["id"] = spec["parts"][op["i"]]["id"]
+        spec["parts"][op["i"]] = new
+        return True
+    if op["part"] >= len(spec["parts"]):
+        return False
+    ps = spec["parts"][op["part"]]
+    if kind in ("note_end", "note_attr", "art_append", "sym_set", "sym_poke", "remove_note"):
+        o = next((x for x in ps["objs"] if x.get("id") == op["id"] and x["k"] in ("note", "unp", "rest")), None)
+        if o is None:
+            return False
+        if kind == "note_end":
+            o["e"] = op["e"]
+        elif kind == "note_attr":
+            o[op["field"]] = op["value"]
+        elif kind == "art_append":
+            o["art"] = sorted(set((o.get("art") or []) + [op["value"]]))
+        elif kind == "sym_set":
+            o["sym"] = dict(o["sym"] if (op.get("inplace") and o.get("sym")) else {"type": "quarter"}, **{op["key"]: op["value"]})
+        elif kind == "sym_poke":
+            pass          # writing into the dict an UNSET symbolic duration returns (an estimate) does not change the score
+        else:
+            ps["objs"].remove(o)
+        return True
+    if kind == "obj_attr":
+        if op["k"] == "measure":
+            m = next((m for m in ps["measures"] if m[0] == op["t"]), None)
+            if m is None:
+                return False
+            m[3] = op["value"]
+            return True
+        o = spec_obj(ps, op)
+        if o is None:
+            return False
+        o[op["field"]] = op["value"]
+        return True
+    if kind == "divs":
+        if op["t"] == 0:
+            ps["q0"] = op["q"]
+        else:
+            row = next((r for r in ps["qchanges"] if r[0] == op["t"]), None)
+            if row is not None:
+                row[1] = op["q"]
+            else:
+                ps["qchanges"] = sorted(ps["qchanges"] + [[op["t"], op["q"]]])
+        return True
+    if kind == "add_note":
+        if any(x.get("id") == op["obj"]["id"] for x in ps["objs"]):
+            return False
+        ps["objs"].append(json.loads(json.dumps(op["obj"])))
+        return True
+    raise ValueError(kind)
+
+
+class AliasError(Exception):
+    pass
+
+
+def live_note(part, nid, S):
+    return next((n for n in part.iter_all(S.GenericNote, include_subclasses=True) if n.id == nid), None)
+
+
+def edit_live(scr, op, S):
+    kind = op["op"]
+    if kind == "replace_part":
+        i = op["i"]
+        if i >= len(scr.parts):
+            return False
+        old = scr.parts[i]
+        grouped = any(isinstance(x, S.PartGroup) for x in scr.part_structure)
+        if op.get("plain") and grouped:
+            return False
+        new = build_part(dict(op["part"], id=old.id))
+        if op.get("plain"):
+            scr[i] = new                        # Score.__setitem__ alone: part_structure keeps the old part (same id)
+            return True
+        holder = old.parent.children if old.parent is not None else scr.part_structure
+        holder[[id(x) for x in holder].index(id(old))] = new
+        new.parent, old.parent = old.parent, None
+        scr[i] = new
+        return True
+    if op["part"] >= len(scr.parts):
+        return False
+    part = scr.parts[op["part"]]
+    if kind in ("note_end", "note_attr", "art_append", "sym_set", "sym_poke", "remove_note"):
+        n = live_note(part, op["id"], S)
+        if n is None or isinstance(n, S.GraceNote):
+            return False
+        if kind == "note_end":
+            st = n.start.t
+            part.remove(n)
+            part.add(n, st, op["e"])
+        elif kind == "note_attr":
+            setattr(n, NOTE_FIELDS[op["field"]], op["value"])
+        elif kind == "art_append":
+            if not isinstance(n.articulations, list):     # None, or the empty dict of a loaded note
+                n.articulations = [op["value"]]
+            elif op["value"] not in n.articulations:
+                n.articulations.append(op["value"])          # in place: the list the note holds
+        elif kind == "sym_set":
+            if op.get("inplace") and isinstance(n.symbolic_duration, dict):
+                n.symbolic_duration[op["key"]] = op["value"]  # in place: the dict the note holds
+            else:
+                n.symbolic_duration = {"type": "quarter", op["key"]: op["value"]}
+        elif kind == "sym_poke":
+            d = n.symbolic_duration                           # unset: estimated from duration and divisions on every access
+            if isinstance(d, dict):
+                before = dict(d)
+                d["type"] = "long"
+                d["dots"] = 3
+                d["actual_notes"], d["normal_notes"] = 7, 4
+                if n.symbolic_duration != before:
+                    raise AliasError("writing into the dict returned by the symbolic_duration of note %s (unset: estimated from its "
+                                     "duration and the divisions) changed what the next access returns: %r -> %r"
+                                     % (n.id, before, n.symbolic_duration))
+        else:
+            part.remove(n)
+        return True
+    if kind == "obj_attr":
+        if op["k"] == "measure":
+            m = next((m for m in part.iter_all(S.Measure) if m.start.t == op["t"]), None)
+            if m is None:
+                return False
+            m.name = op["value"]
+            return True
+        cls = getattr(S, OBJ_CLASS[op["k"]])
+        o = next((x for x in part.iter_all(cls) if x.start is not None and x.start.t == op["t"]
+                  and (op["k"] != "clef" or x.staff == op.get("staff"))), None)
+        if o is None:
+            return False
+        setattr(o, OBJ_FIELDS[op["k"]][op["field"]], op["value"])
+        return True
+    if kind == "divs":
+        part.set_quarter_duration(op["t"], op["q"])
+        return True
+    if kind == "add_note":
+        if live_note(part, op["obj"]["id"], S) is not None:
+            return False
+        part.add(make_note(op["obj"], S), op["obj"]["t"], op["obj"]["e"])
+        return True
+    raise ValueError(kind)
+
+
+def gen_edit(rng, spec, ids, adopted=False):
+    """one edit op that is applicable to `spec` (None when the draw finds no target)"""
+    pi = rng.randrange(len(spec["parts"]))
+    ps = spec["parts"][pi]
+    free = free_notes(ps)
+    r = rng.random()
+    if r < 0.16 and free:
+        o = rng.choice(free)
+        seg = segment_of(ps, o["t"])
+        if seg:
+            cand = [e for e in range(o["t"] + 1, seg[1] + 1) if e != o["e"]]
+            if cand:
+                return {"op": "note_end", "part": pi, "id": o["id"], "e": rng.choice(cand)}
+    elif r < 0.30 and free:
+        o = rng.choice(free)
+        f = rng.choice(["staff", "oct", "stem", "voice"])
+        maxv = max([x.get("voice", 0) for x in ps["objs"] if "voice" in x] + [1])
+        v = {"staff": rng.randint(1, ps["nstaves"] + (1 if rng.random() < 0.3 else 0)), "oct": rng.choice([1, 7]),
+             "stem": rng.choice(["up", "down", None]), "voice": maxv + 1}[f]
+        if f == "staff":
+            ps["nstaves"] = max(ps["nstaves"], v)
+        return {"op": "note_attr", "part": pi, "id": o["id"], "field": f, "value": v}
+    elif r < 0.38:
+        notes = [o for o in ps["objs"] if o["k"] in ("note", "unp", "rest")]
+        if notes:
+            return {"op": "art_append", "part": pi, "id": rng.choice(notes)["id"], "value": rng.choice(ARTICULATIONS)}
+    elif r < 0.48:
+        notes = [o for o in ps["objs"] if o["k"] in ("note", "unp", "rest")]
+        if notes:
+            key = rng.choice(["type", "dots"])
+            o = rng.choice(notes)
+            if not o.get("sym") and not adopted and rng.random() < 0.75:
+                return {"op": "sym_poke", "part": pi, "id": o["id"]}
+            return {"op": "sym_set", "part": pi, "id": o["id"], "key": key, "inplace": bool(o.get("sym")),
+                    "value": rng.choice(SYMTYPES) if key == "type" else rng.choice([1, 2])}
+    elif r < 0.60:
+        cands = [o for o in ps["objs"] if o["k"] in OBJ_FIELDS and (o["k"] != "tempo" or True)]
+        if cands and rng.random() < 0.8:
+            o = rng.choice(cands)
+            f = sorted(OBJ_FIELDS[o["k"]])[0]
+            v = {"bpm": rng.choice([50, 66, 84, 132]), "f": rng.randint(-5, 5), "beats": rng.choice([2, 3, 4, 5, 7]),
+                 "sign": rng.choice(["G", "F", "C"]), "n": rng.choice([1, 2, 3, 4])}[f]
+            op = {"op": "obj_attr", "part": pi, "k": o["k"], "t": o["t"], "field": f, "value": v}
+            if o["k"] == "clef":
+                op["staff"] = o["staff"]
+            # the same key only once per time (one <attributes> holds one of each): targets are unique by construction
+            if sum(1 for x in ps["objs"] if x["k"] == o["k"] and x["t"] == o["t"] and x.get("staff") == o.get("staff")) == 1:
+                return op
+        else:
+            m = rng.choice(ps["measures"])
+            return {"op": "obj_attr", "part": pi, "k": "measure", "t": m[0], "value": rng.choice(["7", "12a", "X1", "99"])}
+    elif r < 0.74:
+        times = [0] + [m[0] for m in ps["measures"][1:]] + [t for t, q in ps["qchanges"]]
+        t = rng.choice(times)
+        rows = sorted([(0, ps["q0"])] + [tuple(x) for x in ps["qchanges"]])
+        # never a row that repeats the value in force (before it, or making the next row repeat it): the exporter writes
+        # such a row as a second <divisions> of the same value, which the importer rightly does not turn into a row again
+        before = [q for (x, q) in rows if x < t]
+        after = [q for (x, q) in rows if x > t]
+        avoid = {q for (x, q) in rows if x == t} | set(before[-1:]) | set(after[:1])
+        q = rng.choice([x for x in (1, 2, 3, 4, 5, 6, 8, 12, 16, 24, 48) if x not in avoid])
+        return {"op": "divs", "part": pi, "t": t, "q": q}
+    elif r < 0.84:
+        seg = segment_of(ps, rng.randrange(0, max(1, ps["end"])))
+        if seg and seg[1] > seg[0]:
+            t = rng.randrange(seg[0], seg[1])
+            e = rng.randint(t + 1, seg[1])
+            maxv = max([x.get("voice", 0) for x in ps["objs"] if "voice" in x] + [0])
+            st = rng.randint(1, ps["nstaves"])
+            step, alter, octave = gen_pitch(rng)
+            return {"op": "add_note", "part": pi, "obj": {"k": "note", "id": ids.new("h"), "t": t, "e": e, "step": step, "alter": alter,
+                                                           "oct": octave, "voice": maxv + 1, "staff": st}}
+    elif r < 0.90 and free:
+        return {"op": "remove_note", "part": pi, "id": rng.choice(free)["id"]}
+    else:
+        sub = IdGen()
+        sub.n = ids.n + 500
+        ids.n += 1000
+        newp, segs = gen_part(rng, sub, ps["id"], small=True)
+        decorate_part(rng, sub, newp, segs)
+        plain = not any(isinstance(x, dict) for x in spec["struct"]) and rng.random() < 0.6
+        return {"op": "replace_part", "i": pi, "part": newp, "plain": plain}
+    return None
+
+
+def gen_history(rng):
+    saved = dict(W)
+    W.update(k_words=0.0, k_fermata=0.0, parts=0.6)
+    try:
+        ids = IdGen()
+        specs = {}
+        for name in ("A", "B"):
+            sp = gen_spec(rng)
+            if rng.random() < 0.3:
+                sp["kinds"] = rng.choice(["np64", "np32", "fbpm", "ftime"])
+            specs[name] = sp
+        sim = {k: json.loads(json.dumps(v)) for k, v in specs.items()}
+        ops = [{"on": "A", "op": "save"}, {"on": "B", "op": "save_light"}] if rng.random() < 0.5 else \
+              [{"on": "B", "op": "save"}, {"on": "A", "op": "save_light"}]
+        ids.n = 5000
+        adopted = set()
+        if rng.random() < 0.6:
+            on = rng.choice("AB")
+            pi = rng.randrange(len(sim[on]["parts"]))
+            cand = [o for o in sim[on]["parts"][pi]["objs"] if o["k"] in ("note", "rest") and not o.get("sym")]
+            if cand:
+                ops.append({"on": on, "op": "sym_poke", "part": pi, "id": rng.choice(cand)["id"]})
+        for _ in range(rng.randint(4, 8)):
+            on = rng.choice("AAB")
+            r = rng.random()
+            if r < 0.62:
+                op = gen_edit(rng, sim[on], ids, adopted=on in adopted)
+                if op is None:
+                    continue
+                op["on"] = on
+                if edit_spec(sim[on], op):
+                    ops.append(op)
+                    if rng.random() < 0.5:
+                        ops.append({"on": on, "op": rng.choice(["save_light", "save_light", "save", "kinds"])})
+            elif r < 0.72:
+                ops.append({"on": on, "op": "adopt"})
+                adopted.add(on)
+            elif r < 0.86:
+                ops.append({"on": on, "op": "load_twice"})
+            else:
+                ops.append({"on": on, "op": "kinds", "i": rng.randrange(len(sim[on]["parts"]))})
+        ops.append({"on": "A", "op": "save"})
+        ops.append({"on": "B", "op": "save_light"})
+        return {"specs": specs, "ops": ops}
+    finally:
+        W.clear()
+        W.update(saved)
+
+
+def scramble(scr, S):
+    """edit a score object in place as thoroughly as the public API allows (H-alias: nothing else may change with it)"""
+    for p in scr.parts:
+        p.set_quarter_duration(0, 7)
+        for n in list(p.iter_all(S.GenericNote, include_subclasses=True)):
+            if hasattr(n, "octave") and n.octave is not None:
+                n.octave = n.octave + 1
+            if isinstance(n.articulations, list):
+                n.articulations.append("scoop")
+            else:
+                n.articulations = ["plop"]
+            if isinstance(n.symbolic_duration, dict):
+                n.symbolic_duration["type"] = "long"
+            n.voice = 9
+            if isinstance(n.technical, list):
+                n.technical.clear()
+        for d in p.iter_all(S.Direction, include_subclasses=True):
+            d.text = "zz"
+            d.raw_text = "zz"
+        for o in p.iter_all(S.KeySignature):
+            o.fifths = 7
+        for o in p.iter_all(S.Measure):
+            o.name = "scrambled"
+        first = next(iter(p.iter_all(S.GenericNote, include_subclasses=True)), None)
+        if first is not None and not isinstance(first, S.GraceNote) and first.tie_next is None and first.tie_prev is None:
+            p.remove(first)
+        p.part_name = "scrambled"
+    for g in scr.part_structure:
+        if isinstance(g, S.PartGroup):
+            g.group_name = "scrambled"
+            g.number = 77
+
+
+def hist_terms(scr, data, reg):
+    """(hscore term, observed term) of one save_musicxml call for Model/C03_Hist.v: per part the note ids in document order and
+    the notes with the slurs / tuplets that stop and start at them (from the score object), and what was written: the id with
+    its repetition suffix and the (number, is-start) elements at every note.  reg names ids and range objects by integers that
+    stay the same over the whole history."""
+    import partitura.score as S
+    parts_t, obs_t = [], []
+    written = parse_written(data)
+    if len(written) != len(scr.parts):
+        return None
+    for part, wp in zip(scr.parts, written):
+        byid = {n.id: n for n in part.iter_all(S.GenericNote, include_subclasses=True)}
+        ids, oids, rn, ro = [], [], {"slur": [], "tuplet": []}, {"slur": [], "tuplet": []}
+        k = 0
+        for m in wp["measures"]:
+            for e in m["elems"]:
+                if e[0] != "note":
+                    continue
+                wid, rep = e[1], 1
+                if wid not in byid and wid and "_" in wid:
+                    wid, r = wid.rsplit("_", 1)
+                    rep = int(r) if r.isdigit() else -1
+                n = byid.get(wid)
+                if n is None:
+                    return None
+                g = reg["ids"].setdefault(wid, len(reg["ids"]) + 1)
+                ids.append(cz(g))
+                oids.append(ctuple([cz(g), cz(rep)]))
+                for kind in ("slur", "tuplet"):
+                    names = []
+                    for lst in (getattr(n, kind + "_stops"), getattr(n, kind + "_starts")):
+                        for r in lst:
+                            if id(r) not in reg["ranges"]:
+                                reg["ranges"][id(r)] = (len(reg["ranges"]) + 10, r)       # keeps r alive: ids are not reused
+                        names.append(clist([cz(reg["ranges"][id(r)][0]) for r in lst]))
+                    rn[kind].append("(mkRN %s %s %s)" % (ctuple([cz(k), cz(int(n.start.t))]), names[0], names[1]))
+                    evs = e[6]["ranges"][kind]
+                    if any(t not in ("start", "stop") for (_, t) in evs):
+                        return None
+                    ro[kind].append(clist([ctuple([cz(num), cbool(t == "start")]) for (num, t) in evs]))
+                k += 1
+        parts_t.append("(mkHP %s %s %s)" % (clist(ids), clist(rn["slur"]), clist(rn["tuplet"])))
+        obs_t.append(ctuple([clist(oids), clist(ro["slur"]), clist(ro["tuplet"])]))
+    return parts_t, clist(obs_t)
+
+
+def hist_case(records):
+    """records of one track [(part terms, observed term, indices replaced through Score.__setitem__ since the call before)]
+    -> Coq term (first score, history, what every call wrote)"""
+    if not records or any(r is None for r in records) or len({len(r[0]) for r in records}) != 1:
+        return None
+    ops = []
+    for j, (parts_t, _, setitem) in enumerate(records):
+        if j > 0:
+            ops.extend("(%s %d %s)" % ("HSetPart" if i in setitem else "HEdit", i, t) for i, t in enumerate(parts_t))
+        ops.append("HSave")
+    return ctuple([clist(records[0][0]), clist(ops), clist([r[1] for r in records])])
+
+
+def run_history(hist, stop_at_first=True, trace=None, collect=None):
+    """-> [(kind, text, step index)].  Deterministic in `hist`."""
+    import partitura.score as S
+    from partitura import save_musicxml, load_musicxml
+    import tempfile
+
+    problems = []
+    tracks = {}
+    seen_states, seen_step = {}, {}
+    with warnings.catch_warnings():
+        warnings.simplefilter("ignore")
+        for name, sp in hist["specs"].items():
+            spec = json.loads(json.dumps(sp))
+            try:
+                tracks[name] = {"spec": spec, "scr": build(spec), "plain": False, "watch": [], "setitem": set(),
+                                "reg": {"ids": {}, "ranges": {}}}
+            except Exception as ex:
+                return [("build", "%s: %s" % (type(ex).__name__, ex), -1)]
+
+        def seq_of(spec):
+            return all(voices_sequential(ps) for ps in spec["parts"])
+
+        def state_check(tr, step, after):
+            """the live object is in the state the spec describes; objects returned earlier are untouched"""
+            fresh = build(tr["spec"])
+            seq = seq_of(tr["spec"])
+            for k, a, b in fp_diff(fingerprint(fresh, with_voice=seq), fingerprint(tr["scr"], with_voice=seq), limit=3):
+                problems.append(("H-state", "%s after %s: the score object differs from a freshly built score of its current state: %s: "
+                                 "fresh %r, live %r" % (k.split(".")[-1], after, k, a, b), step))
+            for (what, obj, fp0, wseq) in tr["watch"]:
+                for k, a, b in fp_diff(fp0, fingerprint(obj, with_voice=wseq), limit=2):
+                    problems.append(("H-alias", "%s changed after %s although it was not touched: %s: was %r, is %r" % (what, after, k, a, b), step))
+            return fresh
+
+        for step, op in enumerate(hist["ops"]):
+            if problems and stop_at_first:
+                break
+            tr = tracks.get(op["on"])
+            if tr is None:
+                continue
+            kind = op["op"]
+            try:
+                if kind in ("save", "save_light"):
+                    if kind == "save":
+                        o = check_spec(tr["spec"], want_coq=False, scr=tr["scr"])
+                        problems.extend((k, t, step) for k, t in o.problems)
+                        data = o.data
+                    else:
+                        data = save_musicxml(tr["scr"])
+                    fresh = state_check(tr, step, "save_musicxml")
+                    if data is not None:
+                        ref = save_musicxml(fresh)
+                        key = json.dumps(tr["spec"], sort_keys=True)
+                        if key in seen_states and seen_states[key] != ref:
+                            problems.append(("H-process", "a freshly built score of the same state is written differently later in the process "
+                                             "(- at step %d, + now): " % seen_step[key] + bytes_diff(seen_states[key], ref), step))
+                        seen_states.setdefault(key, ref)
+                        seen_step.setdefault(key, step)
+                        if ref != data and seq_of(tr["spec"]):
+                            problems.append(("H-bytes", "save_musicxml of the score object differs from save_musicxml of a freshly built score "
+                                             "of its current state (- fresh, + live): " + bytes_diff(ref, data), step))
+                        elif ref != data:
+                            # voices have to be re-assigned: which note gets which free voice depends on the order in which
+                            # simultaneous notes were added; the two files must denote the same score up to voice numbers
+                            fa = fingerprint(load_musicxml(io.BytesIO(ref)), with_voice=False)
+                            fb = fingerprint(load_musicxml(io.BytesIO(data)), with_voice=False)
+                            for k, x, y in fp_diff(fa, fb, limit=2):
+                                problems.append(("H-bytes", "the file written for the score object and the file written for a freshly built score of "
+                                                 "its current state load as different scores: %s: fresh %r, live %r" % (k, x, y), step))
+                        if kind == "save_light":
+                            # O1 on the live object's bytes against the current spec
+                            for ps, wp in zip(tr["spec"]["parts"], parse_written(data)):
+                                got = interp_part_q(wp["measures"])
+                                snd = merge_ties([(i["midi"], o_, d, i["stop"], i["start"]) for (_, o_, d, i) in got if i["midi"] >= 0])
+                                if snd != expected_sounding(ps):
+                                    problems.append(("O1", "part %s: written file denotes other sounding notes than the current state" % ps["id"], step))
+                    if trace is not None:
+                        trace.append((step, op, len(data or b"")))
+                    if collect is not None and data is not None:
+                        t = hist_terms(tr["scr"], data, tr["reg"])
+                        collect.setdefault(op["on"], []).append(None if t is None else (t[0], t[1], set(tr["setitem"])))
+                        tr["setitem"] = set()
+                elif kind == "kinds":
+                    scr = tr["scr"]
+                    full = save_musicxml(scr)
+                    buf = io.BytesIO()
+                    if save_musicxml(scr, buf) is not None or buf.getvalue() != full:
+                        problems.append(("H-kinds", "save_musicxml(score, file object) writes other bytes than save_musicxml(score) returns", step))
+                    with tempfile.NamedTemporaryFile(suffix=".musicxml", delete=False) as f:
+                        path = f.name
+                    try:
+                        save_musicxml(scr, path)
+                        if open(path, "rb").read() != full:
+                            problems.append(("H-kinds", "save_musicxml(score, path) writes other bytes than save_musicxml(score) returns", step))
+                        seq = seq_of(tr["spec"])
+                        a = fingerprint(load_musicxml(path), with_voice=seq)
+                        b = fingerprint(load_musicxml(io.BytesIO(full)), with_voice=seq)
+                        for k, x, y in fp_diff(a, b, limit=2):
+                            problems.append(("H-kinds", "load_musicxml(path) and load_musicxml(file object) of the same bytes differ: %s: %r / %r" % (k, x, y), step))
+                    finally:
+                        os.unlink(path)
+                    if not tr["plain"]:
+                        other = save_musicxml(list(scr.part_structure))
+                        if other != full:
+                            problems.append(("H-kinds", "save_musicxml(list of the score's part structure) differs from save_musicxml(score) "
+                                             "(- score, + list): " + bytes_diff(full, other), step))
+                        if len(scr.part_structure) == 1:
+                            other = save_musicxml(scr.part_structure[0])
+                            if other != full:
+                                problems.append(("H-kinds", "save_musicxml(the single Part / PartGroup) differs from save_musicxml(score) "
+                                                 "(- score, + single): " + bytes_diff(full, other), step))
+                    i = op.get("i", 0) % len(scr.parts)
+                    fresh = state_check(tr, step, "save_musicxml")
+                    one, ref = save_musicxml(scr.parts[i]), save_musicxml(fresh.parts[i])
+                    if one != ref and voices_sequential(tr["spec"]["parts"][i]):
+                        problems.append(("H-kinds", "save_musicxml(part %d of the score) differs from the same call on a freshly built score "
+                                         "(- fresh, + live): " % i + bytes_diff(ref, one), step))
+                    if save_musicxml(scr) != full:
+                        problems.append(("H-bytes", "two consecutive save_musicxml calls on the same score return different bytes: "
+                                         + bytes_diff(full, save_musicxml(scr)), step))
+                elif kind == "load_twice":
+                    data = save_musicxml(tr["scr"])
+                    seq = seq_of(tr["spec"])
+                    a, b = load_musicxml(io.BytesIO(data)), load_musicxml(io.BytesIO(data))
+                    fa, fb = fingerprint(a, with_voice=seq), fingerprint(b, with_voice=seq)
+                    for k, x, y in fp_diff(fa, fb, limit=2):
+                        problems.append(("H-alias", "two load_musicxml calls on the same bytes return different scores: %s: %r / %r" % (k, x, y), step))
+                    scramble(a, S)
+                    for k, x, y in fp_diff(fb, fingerprint(b, with_voice=seq), limit=2):
+                        problems.append(("H-alias", "editing one loaded score changed another score loaded from the same bytes: %s: was %r, is %r" % (k, x, y), step))
+                    c = load_musicxml(io.BytesIO(data))
+                    for k, x, y in fp_diff(fb, fingerprint(c, with_voice=seq), limit=2):
+                        problems.append(("H-alias", "load_musicxml after an earlier result was edited returns another score for the same bytes: "
+                                         "%s: first %r, now %r" % (k, x, y), step))
+                    tr["watch"] = [("a score returned by an earlier load_musicxml", b, fb, seq)]
+                    state_check(tr, step, "load_musicxml + editing its result")
+                elif kind == "adopt":
+                    if tr["plain"] or not seq_of(tr["spec"]):
+                        continue
+                    tr["scr"] = load_musicxml(io.BytesIO(save_musicxml(tr["scr"])))
+                    tr["adopted"] = True
+                    # a loaded note holds the <type> that was written for it: symbolic durations that were estimates so far
+                    # are explicit from here on (O2 of the observations before compared them)
+                    for ps, part in zip(tr["spec"]["parts"], tr["scr"].parts):
+                        byid = {n.id: n for n in part.iter_all(S.GenericNote, include_subclasses=True)}
+                        for o in ps["objs"]:
+                            n = byid.get(o.get("id"))
+                            if n is not None and o["k"] in ("note", "unp", "rest", "grace") and not o.get("sym"):
+                                sd = n.symbolic_duration
+                                if isinstance(sd, dict):
+                                    o["sym"] = {k: _py(v) for k, v in sd.items() if k in ("type", "dots", "actual_notes", "normal_notes") and v}
+                                    o["sym"].setdefault("type", None)     # no <type> was written: explicitly none from here on
+                else:
+                    if kind == "replace_part" and tr["plain"]:
+                        op = dict(op, plain=True)     # part_structure already holds a replaced part: Score.__setitem__ alone
+                    a = edit_live(tr["scr"], op, S)
+                    b = edit_spec(tr["spec"], op)
+                    if a != b:
+                        problems.append(("H-state", "edit %s: target found in the %s only" % (kind, "score object" if a else "spec"), step))
+                    if kind == "replace_part" and a and op.get("plain"):
+                        tr["plain"] = True
+                        tr["setitem"].add(op["i"])
+            except AliasError as ex:
+                problems.append(("H-alias", str(ex), step))
+            except Exception as ex:
+                import traceback
+                problems.append(("H-raise", "%s at step %d (%s) raised %s: %s | %s" % (kind, step, op.get("on"), type(ex).__name__, ex,
+                                                                                      traceback.format_exc().strip().splitlines()[-3].strip()), step))
+    return problems
+
+
+def hist_signature(kind, text):
+    if kind == "O2":
+        return signature(kind, text)
+    if kind == "H-state":
+        return kind + ":" + text.split(" ")[0]
+    return kind
+
+
+def shrink_history(hist, kind, text, budget=25.0, step=None):
+    """shorter op sequence, fewer tracks, fewer objects with the same failure signature (CPU-time guarded)"""
+    import time
+    sig = hist_signature(kind, text)
+    t0 = time.process_time()
+
+    def fails(h):
+        if time.process_time() - t0 > budget:
+            return False
+        try:
+            return any(hist_signature(k, t) == sig for k, t, _ in run_history(h))
+        except Exception:
+            return False
+
+    h = json.loads(json.dumps(hist))
+    first = next((st for k, t, st in run_history(h) if hist_signature(k, t) == sig), None)
+    if first is None:
+        # not reproducible inside this process (the first run changed module-level state for good): keep the ops up to
+        # the step that failed and the tracks they use; a replay in a fresh process shows it again
+        if step is not None and step >= 0:
+            h["ops"] = h["ops"][:step + 1]
+            used = {op["on"] for op in h["ops"]}
+            h["specs"] = {k: v for k, v in h["specs"].items() if k in used}
+        return h
+    if first >= 0:
+        h["ops"] = h["ops"][:first + 1]
+    h["ops"] = core.ddmin(h["ops"], lambda sub: fails(dict(h, ops=sub)))
+    for name in list(h["specs"]):
+        if len(h["specs"]) > 1:
+            c = dict(h, specs={k: v for k, v in h["specs"].items() if k != name})
+            if fails(c):
+                h = c
+    for name in list(h["specs"]):
+        sp = h["specs"][name]
+        for pi in range(len(sp["parts"])):
+            def with_objs(objs, pi=pi, name=name):
+                c = json.loads(json.dumps(h))
+                c["specs"][name]["parts"][pi]["objs"] = objs
+                return c
+            objs = core.ddmin(sp["parts"][pi]["objs"], lambda sub: fails(with_objs(sub)))
+            if fails(with_objs(objs)):
+                h = with_objs(objs)
+                sp = h["specs"][name]
+    return h
+
+
+def history_stream(ctx, n, hcases):
+    import time
+    nviol = 0
+    shrink_cpu = 0.0
+    for i in range(n):
+        hist = gen_history(ctx.rng)
+        collect = {}
+        probs = run_history(hist, collect=collect)
+        if not probs:
+            for name in sorted(collect):
+                c = hist_case(collect[name])
+                if c is None:
+                    ctx.count("history:tracks_without_coq_case")
+                else:
+                    hcases.append((hist, name, c))
+        ctx.evaluations += 1
+        ctx.count("history:histories")
+        for op in hist["ops"]:
+            ctx.count("history:op:" + op["op"] + (":plain" if op.get("plain") else "") + (":" + op["field"] if op["op"] == "note_attr" else "")
+                      + (":" + op["k"] if op["op"] == "obj_attr" else ""))
+        ctx.nontrivial("H" + json.dumps(hist, sort_keys=True))
+        if i < 1:
+            ctx.sample({"history_ops": [{k: v for k, v in op.items() if k != "part" or not isinstance(v, dict)} for op in hist["ops"]]})
+        seen = []
+        for k, txt, step in probs:
+            if k == "build":
+                ctx.count("generator:rejected_by_api")
+                continue
+            if k in seen:
+                continue
+            seen.append(k)
+            if nviol < 6:
+                t0 = time.process_time()
+                small = shrink_history(hist, k, txt, budget=25.0 if shrink_cpu < 60 else 0.0, step=step)
+                shrink_cpu += time.process_time() - t0
+                p2 = run_history(small)
+                k2, txt2, st2 = next(((kk, t, st) for kk, t, st in p2 if hist_signature(kk, t) == hist_signature(k, txt)), (k, txt, step))
+                r = ctx.violation("history (%d ops, failing at step %d): %s: %s" % (len(small["ops"]), st2, k2, txt2),
+                                  {"kind": "history", "what": "%s: %s" % (k2, txt2), "history": small})
+                if r != "known":
+                    nviol += 1
+    ctx.log("phase: %d histories (call / edit / call again on two interleaved scores) done" % n)
 
 
 # ---------------------------------------------------------------------------------------------
@@ -1649,16 +2396,22 @@ def run(ctx):
                 "pickup and irregular measures, tie chains over barlines, nested/overlapping slurs and tuplets over any voices, grace "
                 "runs, directions incl. overlapping wedges/dashes and pedals, tempo, repeats/endings, fermatas, harmony elements, new "
                 "systems/pages, staff details), saved, read by the independent interpreter, loaded and saved again.  One evaluation = "
-                "one score; distinct non-trivial = distinct specs that contain more than one voice or a gap/chord/grace/tie/division change.")
+                "one score; distinct non-trivial = distinct specs that contain more than one voice or a gap/chord/grace/tie/division change.  "
+                "A quarter of the scores are built from numpy integers (int64 / int32) or with float tempi.  HISTORY stream: two scores "
+                "interleaved in one process; call (save_musicxml on Score / list / Part / PartGroup / to a file object / to a path, "
+                "load_musicxml from bytes and from a path, twice) -> edit (Part.add / remove, set_quarter_duration, in-place attribute, "
+                "list and dict edits, score[i] = part with and without the part structure, adopting the loaded score) -> call again; every "
+                "observation is judged against the JSON spec of the CURRENT state only (O1-O3, fingerprint and bytes of a freshly built "
+                "score, objects returned earlier unchanged).  One evaluation = one history.")
     ctx.trusted = ["Coq 8.16.1 kernel incl. vm_compute", "lxml parsing of the written bytes into the model's element type (harness/props/c03.py: parse_written)",
                    "the score builder and the canonical fingerprint in harness/props/c03.py", "Part.iter_all order as the model's input order of the notes of a segment",
                    "the extraction of the slur/tuplet/wedge/dashes events and of the part-list tokens from the score and the written file (range_cases, wedge_cases, group_case)"]
     ctx.assumptions = ["generated notes carry unique ids, positive voices and staves; no note crosses a barline or a change of divisions",
                        "voices are compared by O2 only for scores whose voices are sequential (otherwise the exporter must re-assign; the new voices are checked against the model)"]
     register_matchers(ctx)
-    ok, why = ctx.coq_props(expect_min=30)
+    ok, why = ctx.coq_props(expect_min=37)
     ctx.log("phase: Props/C03.v built and checked")
-    n_scores = 400 if ctx.tier == "quick" else 3000
+    n_scores = 320 if ctx.tier == "quick" else 3000
     mcases, pcases, gcases, rcases, wcases = [], [], [], [], []
     nviol = 0
     fixed = corpus_specs()
@@ -1669,6 +2422,10 @@ def run(ctx):
     ctx.count("corpus+enumerated", len(fixed))
     for i in range(len(fixed) + n_scores):
         spec = fixed[i] if i < len(fixed) else gen_spec(ctx.rng)
+        if i >= len(fixed) and ctx.rng.random() < 0.25:
+            # the numbers reach the score API as numpy integers of one width / the tempo as a float: same score, same file
+            spec["kinds"] = ctx.rng.choice(["np64", "np32", "fbpm", "ftime"])
+            ctx.count("kinds:" + spec["kinds"])
         o = check_spec(spec)
         ctx.evaluations += 1
         feats = features_of(spec)
@@ -1707,6 +2464,8 @@ def run(ctx):
             mcases.extend((spec, pid, mi, c) for (pid, mi, c) in o.measure_cases)
             pcases.extend((spec, pid, c) for (pid, c) in o.part_cases)
     ctx.log("phase: %d scores through save/load/save and the direct oracles done" % ctx.evaluations)
+    hcases = []
+    history_stream(ctx, 36 if ctx.tier == "quick" else 400, hcases)
     ctx.count("coq:measure_cases", len(mcases))
     ctx.count("coq:part_cases", len(pcases))
     if ok:
@@ -1827,6 +2586,22 @@ def run(ctx):
                 ctx.count("coq:range_model_drift", len(rfail))
                 ctx.log("MODEL-DRIFT (no violation): on %d of %d (part, kind) cases whose slurs / tuplets survived save/load the numbers "
                         "written / the pairs read are not those of Model/C03_Rng.v" % (len(rfail), len(rcases)))
+        # state between calls: the history model (Model/C03_Hist.v) writes what every save_musicxml call of a history wrote
+        ctx.count("coq:history_cases (tracks of histories with >= 1 call)", len(hcases))
+        try:
+            hfail = ctx.coq_failing("hist", "From PV Require Import Model.C03_Rng Model.C03_Hist.", "", [c for (_, _, c) in hcases], "check_hist", shard=30)
+        except RuntimeError as ex:
+            hfail = None
+            ctx.obligation("correspondence (h): history model evaluation", False, str(ex)[-800:])
+            ctx.violation("Coq could not evaluate the history model: " + str(ex)[-600:], {"error": str(ex)[-1500:]}, no_input=True)
+        if hfail is not None:
+            ctx.obligation("correspondence (h): run (Model/C03_Hist.v: fresh per-call counters, Score.parts) on the edits and calls of a history "
+                           "= the note ids (with repetition suffix) and slur / tuplet numbers every save_musicxml call of the history wrote, "
+                           "on %d tracks" % len(hcases), not hfail, hfail[:5])
+            if hfail:
+                ctx.count("coq:history_model_drift", len(hfail))
+                ctx.log("MODEL-DRIFT (no violation): on %d of %d history tracks whose direct oracles passed the ids / numbers written are not "
+                        "those of Model/C03_Hist.v" % (len(hfail), len(hcases)))
         # wedge / dashes numbers (do_directions / _handle_direction)
         ctx.count("coq:wedge_cases (parts x {wedge, dashes})", len(wcases))
         wdefs = ("Definition pv_whyp (c : list wevent * list (Z * bool) * list (Z * Z)) : bool :=\n"
@@ -1857,6 +2632,18 @@ def replay(obj):
     r = obj.get("replay", obj)
     spec = r.get("spec")
     print("what:", obj.get("what"))
+    if r.get("kind") == "history" and r.get("history"):
+        h = r["history"]
+        for name, sp in sorted(h["specs"].items()):
+            print("score %s:" % name, json.dumps(sp)[:2500])
+        for i, op in enumerate(h["ops"]):
+            print("step %d:" % i, json.dumps({k: (v if not (k == "part" and isinstance(v, dict)) else "<part spec>") for k, v in op.items()}))
+        probs = run_history(h, stop_at_first=False)
+        for k, t, st in probs:
+            print("PROBLEM at step %d: %s: %s" % (st, k, t))
+        if not probs:
+            print("no problem reproduced on this tree")
+        return 0
     if not spec:
         print(json.dumps(r, indent=1)[:3000])
         return 0
